@@ -490,6 +490,17 @@ func (f *fsm) build(op hx.Op) *proto.RaftLog {
 					cands = append(cands, r)
 				}
 			}
+			if op.Arg(3, 0)%5 == 0 {
+				// a repeated request (e.g. a retry committed twice): the replica is not in the ISR any more
+				cands = nil
+				reps := p.GetReplicas()
+				sort.Strings(reps)
+				for _, r := range reps {
+					if !in[r] {
+						cands = append(cands, r)
+					}
+				}
+			}
 			if len(cands) == 0 {
 				return nil
 			}
@@ -505,6 +516,15 @@ func (f *fsm) build(op hx.Op) *proto.RaftLog {
 			for _, r := range reps {
 				if !in[r] {
 					cands = append(cands, r)
+				}
+			}
+			if op.Arg(3, 0)%5 == 0 {
+				// a repeated request: the replica already is in the ISR
+				cands = nil
+				for _, r := range isr {
+					if r != leader {
+						cands = append(cands, r)
+					}
 				}
 			}
 			if len(cands) == 0 {
